@@ -754,6 +754,103 @@ def clamp_checks():
     return [Check('Clamp', 'clamp_integer', lambda rng: vec(rng, b), ext_vecs(b), o, 'any 32 bytes')]
 
 
+def fiat_checks(mod, nl, val, bits_of):
+    """independent big-integer oracles for the translated fiat wrapper kernels (fiat-crypto functions inlined): inputs inside
+    fiat's tight bounds (INCLUSIVE 2^bits), outputs must be tight again and have the exact value mod p"""
+    cs = []
+    T = [2 ** bits_of(i) + 1 for i in range(nl)]          # exclusive generator bounds = inclusive tight bounds + 1
+    LOOSE = [3 * 2 ** bits_of(i) + 1 for i in range(nl)]
+
+    def tight_out(out):
+        for i, x in enumerate(out):
+            if x > 2 ** bits_of(i):
+                return 'output limb %d = %d is not tight' % (i, x)
+        return None
+    g2 = lambda rng: vec(rng, T) + vec(rng, T)
+    ext2 = [a + b for a in ext_vecs(T) for b in ext_vecs(T)]
+    g1 = lambda rng: vec(rng, T)
+
+    def bin_oracle(f):
+        def o(ins, out):
+            a, b = ins[:nl], ins[nl:]
+            if val(out) % P != f(val(a), val(b)) % P:
+                return 'value mismatch'
+            return tight_out(out)
+        return o
+
+    def un_oracle(f):
+        def o(ins, out):
+            if val(out) % P != f(val(ins)) % P:
+                return 'value mismatch'
+            return tight_out(out)
+        return o
+    for name, f in (('add', lambda a, b: a + b), ('add_ref', lambda a, b: a + b), ('sub', lambda a, b: a - b),
+                    ('sub_assign', lambda a, b: a - b), ('mul', lambda a, b: a * b), ('mul_assign', lambda a, b: a * b)):
+        cs.append(Check(mod, name, g2, ext2, bin_oracle(f), 'tight limbs (inclusive)'))
+    for name, f in (('neg', lambda a: -a), ('square', lambda a: a * a), ('square2', lambda a: 2 * a * a),
+                    ('pow2k_body', lambda a: a * a)):
+        cs.append(Check(mod, name, g1, ext_vecs(T), un_oracle(f), 'tight limbs (inclusive)'))
+    if nl == 5:
+        cs.append(Check(mod, 'reduce', lambda rng: vec(rng, LOOSE), ext_vecs(LOOSE), un_oracle(lambda a: a), 'loose limbs'))
+
+    def gen_bytes(rng):
+        r = rng.random()
+        if r < 0.3:
+            n = (P + rng.randrange(-40, 40)) % 2 ** 256
+            if rng.random() < 0.5:
+                n |= 1 << 255
+            return le_bytes(n, 32)
+        if r < 0.4:
+            return [255] * 32
+        return [rng.randrange(256) for _ in range(32)]
+
+    def o_from(ins, out):
+        if val(out) != from_le(ins) % 2 ** 255:
+            return 'value is not the little-endian value mod 2^255'
+        for i, x in enumerate(out):
+            if x >= 2 ** bits_of(i):
+                return 'limb %d = %d not below 2^bits' % (i, x)
+        return None
+    cs.append(Check(mod, 'from_bytes', gen_bytes, [[0] * 32, [255] * 32, le_bytes(P, 32), le_bytes(P - 1, 32)], o_from, 'any 32 bytes'))
+
+    def o_as(ins, out):
+        if out != le_bytes(val(ins) % P, 32):
+            return 'not the canonical encoding of the value'
+        return None
+
+    def gen_as(rng):
+        r = rng.random()
+        if r < 0.4:
+            # representations of values around p and 0 with limbs near the bounds
+            n = (P + rng.randrange(-40, 40)) % 2 ** 255
+            l, acc = [], n
+            for i in range(nl):
+                w = bits_of(i)
+                l.append(acc & ((1 << w) - 1))
+                acc >>= w
+            return l
+        return vec(rng, T)
+    cs.append(Check(mod, 'as_bytes', gen_as, ext_vecs(T), o_as, 'tight limbs (inclusive)'))
+
+    U = [2 ** (64 if nl == 5 else 32)] * nl
+
+    def gsel(rng):
+        return vec(rng, U) + vec(rng, U) + [rng.randrange(2)]
+
+    def o_sel(ins, out):
+        a, b, c = ins[:nl], ins[nl:2 * nl], ins[2 * nl]
+        return None if out == (a if c == 0 else b) else 'not the selected operand'
+    extsel = [a + b + [c] for a in ext_vecs(U)[:3] for b in ext_vecs(U)[:3] for c in (0, 1)]
+    cs.append(Check(mod, 'conditional_select', gsel, extsel, o_sel, 'any limbs, choice in {0,1}'))
+    cs.append(Check(mod, 'conditional_assign', gsel, extsel, o_sel, 'any limbs, choice in {0,1}'))
+
+    def o_swap(ins, out):
+        a, b, c = ins[:nl], ins[nl:2 * nl], ins[2 * nl]
+        return None if out == ((a + b) if c == 0 else (b + a)) else 'not the (un)swapped pair'
+    cs.append(Check(mod, 'conditional_swap', gsel, extsel, o_swap, 'any limbs, choice in {0,1}'))
+    return cs
+
+
 def all_checks():
     cs = []
     m51 = [2 ** 54] * 5
@@ -767,6 +864,8 @@ def all_checks():
     p16 = [0x3ffffed << 4] + [(0x1ffffff << 4) if i % 2 else (0x3ffffff << 4) for i in range(1, 10)]
     s26 = [min(a, b + 1) for a, b in zip(m26, p16)]
     cs += field_checks('Field26', 10, val26, lambda i: B26[i], m26, s26, True)
+    cs += fiat_checks('FiatField51', 5, val51, lambda i: 51)
+    cs += fiat_checks('FiatField26', 10, val26, lambda i: B26[i])
     cs += scalar_checks('Scalar52', 5, 52, val52, 260)
     cs += scalar_checks('Scalar29', 9, 29, val29, 261)
     cs += clamp_checks()
@@ -901,7 +1000,7 @@ def main(argv=None):
     only = set(x for x in args.only.split(',') if x)
     t0 = time.time()
     mods = {}
-    for m in ('Field51', 'Field26', 'Scalar52', 'Scalar29', 'Clamp'):
+    for m in ('Field51', 'Field26', 'FiatField51', 'FiatField26', 'Scalar52', 'Scalar29', 'Clamp'):
         p = os.path.join(args.gen, m + '.lean')
         mods[m] = parse_lean_module(p) if os.path.exists(p) else {}
     fails = 0
